@@ -15,6 +15,7 @@ import (
 	"encoding/hex"
 	"errors"
 	"fmt"
+	"io/fs"
 	"os"
 	"path/filepath"
 	"strings"
@@ -57,10 +58,14 @@ func (g *recGetter) Get(u string) ([]byte, error) {
 type recVars struct {
 	calls int
 	body  []byte
+	err   error
 }
 
 func (v *recVars) ReadVariable(uuid.UUID, []uint8) ([]byte, error) {
 	v.calls++
+	if v.err != nil {
+		return nil, v.err
+	}
 	return v.body, nil
 }
 
@@ -115,6 +120,11 @@ type logSpec struct {
 	local []byte
 	// URI the log legitimately points to (fetched through the getter), "" if none
 	uri string
+	// the log's deciding locator (precedence raw > variable > local > URI) is the URI one, so the
+	// order between that fetch and the quote's own evidence is not judged
+	uriDecides bool
+	// answer of the UEFI variable reader (nil = the variable's contents)
+	varErr error
 }
 
 type quoteSpec struct {
@@ -155,7 +165,7 @@ func quotes(measure []byte, blob []byte, tag string) []quoteSpec {
 func main() {
 	r := mc.NewRun("C16")
 	defer kmfx.Cleanup()
-	r.Rule("E1/E5 full product: event log {not configured, unreadable, raw locator, variable locator, URI locator, local-path locator, wrong manufacturer, raw+URI, variable+URI, URI+raw} x supplied quote {empty, 7 formats with/without the endorsement in the certificate table, cert table only, garbage} x provider {none, quote with/without extras, error} x getter {nil, ok, error} x forced fetch; object names over all measurements of <=2 bytes and 48-byte one-bit neighbours x {3 SEV family ids, TDX}; efivarfs names of <=3 (thorough 4) UCS-2 units over {a . / \\ - NUL} x 3 GUIDs under a scratch root with symlinks; emitted events for a menu of digests; non-trivial = distinct (sources, forced) combinations that returned an endorsement")
+	r.Rule("E1/E5 full product: event log {not configured, unreadable, raw locator, variable locator, URI locator, local-path locator, wrong manufacturer, raw+URI, URI+variable, wrong-raw+URI, variable that cannot be read (absent, denied) alone and with a URI locator in both orders, local-path+URI} x supplied quote {empty, 7 formats with/without the endorsement in the certificate table, cert table only, garbage} x provider {none, quote with/without extras, error} x getter {nil, ok, error} x forced fetch; object names over all measurements of <=2 bytes and 48-byte one-bit neighbours x {3 SEV family ids, TDX}; efivarfs names of <=3 (thorough 4) UCS-2 units over {a . / \\ - NUL} x 3 GUIDs under a scratch root with symlinks; emitted events for a menu of digests; non-trivial = distinct (sources, forced) combinations that returned an endorsement")
 	scratch := kmfx.ScratchRoot()
 	write := func(name string, b []byte) string {
 		p := filepath.Join(scratch, name)
@@ -165,16 +175,23 @@ func main() {
 	rimVar := append(append([]byte{0x46, 0x8e, 0x85, 0xa2, 0x7f, 0xa3, 0x6a, 0x45, 0x8c, 0x79, 0x0c, 0x1f, 0xe4, 0x8b, 0x65, 0xff}, []byte("F\x00i\x00r\x00m\x00w\x00a\x00r\x00e\x00R\x00I\x00M\x00")...), 0, 0)
 	g := extract.GCEFirmwareManufacturer
 	logs := []logSpec{
-		{"not-configured", "", nil, ""},
-		{"unreadable", filepath.Join(scratch, "does-not-exist"), nil, ""},
-		{"raw", write("el-raw", mkLog(sp800(g, eventlog.RIMLocationRaw, rawBlob))), rawBlob, ""},
-		{"variable", write("el-var", mkLog(sp800(g, eventlog.RIMLocationVariable, rimVar))), varBlob, ""},
-		{"uri", write("el-uri", mkLog(sp800(g, eventlog.RIMLocationURI, []byte(uriLoc)))), nil, uriLoc},
-		{"local-path", write("el-local", mkLog(sp800(g, eventlog.RIMLocationLocal, []byte("PciRoot(0)/x")))), nil, ""},
-		{"wrong-manufacturer", write("el-wrong", mkLog(sp800("Evil Corp", eventlog.RIMLocationRaw, []byte("EVIL")))), nil, ""},
-		{"raw+uri", write("el-raw-uri", mkLog(sp800(g, eventlog.RIMLocationRaw, rawBlob), sp800(g, eventlog.RIMLocationURI, []byte(uriLoc)))), rawBlob, ""},
-		{"uri+variable", write("el-uri-var", mkLog(sp800(g, eventlog.RIMLocationURI, []byte(uriLoc)), sp800(g, eventlog.RIMLocationVariable, rimVar))), varBlob, ""},
-		{"wrong-raw+uri", write("el-wrong-raw-uri", mkLog(sp800("Evil Corp", eventlog.RIMLocationRaw, []byte("EVIL")), sp800(g, eventlog.RIMLocationURI, []byte(uriLoc)))), nil, uriLoc},
+		{"not-configured", "", nil, "", false, nil},
+		{"unreadable", filepath.Join(scratch, "does-not-exist"), nil, "", false, nil},
+		{"raw", write("el-raw", mkLog(sp800(g, eventlog.RIMLocationRaw, rawBlob))), rawBlob, "", false, nil},
+		{"variable", write("el-var", mkLog(sp800(g, eventlog.RIMLocationVariable, rimVar))), varBlob, "", false, nil},
+		{"uri", write("el-uri", mkLog(sp800(g, eventlog.RIMLocationURI, []byte(uriLoc)))), nil, uriLoc, true, nil},
+		{"local-path", write("el-local", mkLog(sp800(g, eventlog.RIMLocationLocal, []byte("PciRoot(0)/x")))), nil, "", false, nil},
+		{"wrong-manufacturer", write("el-wrong", mkLog(sp800("Evil Corp", eventlog.RIMLocationRaw, []byte("EVIL")))), nil, "", false, nil},
+		{"raw+uri", write("el-raw-uri", mkLog(sp800(g, eventlog.RIMLocationRaw, rawBlob), sp800(g, eventlog.RIMLocationURI, []byte(uriLoc)))), rawBlob, "", false, nil},
+		{"uri+variable", write("el-uri-var", mkLog(sp800(g, eventlog.RIMLocationURI, []byte(uriLoc)), sp800(g, eventlog.RIMLocationVariable, rimVar))), varBlob, "", false, nil},
+		{"wrong-raw+uri", write("el-wrong-raw-uri", mkLog(sp800("Evil Corp", eventlog.RIMLocationRaw, []byte("EVIL")), sp800(g, eventlog.RIMLocationURI, []byte(uriLoc)))), nil, uriLoc, true, nil},
+		// the variable locator decides but the variable cannot be read: the log yields nothing, and
+		// what follows is the quote's own evidence, not the lower-precedence URI locator
+		{"variable(absent)", write("el-var-a", mkLog(sp800(g, eventlog.RIMLocationVariable, rimVar))), nil, "", false, &fs.PathError{Op: "open", Path: "FirmwareRIM", Err: fs.ErrNotExist}},
+		{"variable(absent)+uri", write("el-var-a-uri", mkLog(sp800(g, eventlog.RIMLocationVariable, rimVar), sp800(g, eventlog.RIMLocationURI, []byte(uriLoc)))), nil, uriLoc, false, &fs.PathError{Op: "open", Path: "FirmwareRIM", Err: fs.ErrNotExist}},
+		{"uri+variable(absent)", write("el-uri-var-a", mkLog(sp800(g, eventlog.RIMLocationURI, []byte(uriLoc)), sp800(g, eventlog.RIMLocationVariable, rimVar))), nil, uriLoc, false, &fs.PathError{Op: "open", Path: "FirmwareRIM", Err: fs.ErrNotExist}},
+		{"variable(denied)+uri", write("el-var-d-uri", mkLog(sp800(g, eventlog.RIMLocationVariable, rimVar), sp800(g, eventlog.RIMLocationURI, []byte(uriLoc)))), nil, uriLoc, false, &fs.PathError{Op: "open", Path: "FirmwareRIM", Err: fs.ErrPermission}},
+		{"local-path+uri", write("el-local-uri", mkLog(sp800(g, eventlog.RIMLocationLocal, []byte("PciRoot(0)/x")), sp800(g, eventlog.RIMLocationURI, []byte(uriLoc)))), nil, uriLoc, false, nil},
 	}
 	qs := append([]quoteSpec{{"empty", nil, nil, nil, "", true}, {"garbage", []byte("\x01\x02garbage that is no attestation\xff\xfe"), nil, nil, "", true}}, quotes(mQuote, localBlob, "")...)
 	pq := quotes(mProvider, provBlob, "p:")
@@ -209,7 +226,7 @@ func main() {
 						id := fmt.Sprintf("extract log=%s quote=%s provider=%s getter=%s force=%v", lg.name, q.name, pv.name, gt.name, force)
 						r.Case(id, func() string {
 							gtr := &recGetter{body: netBlob, err: gt.err}
-							vars := &recVars{body: varBlob}
+							vars := &recVars{body: varBlob, err: lg.varErr}
 							opts := &extract.Options{FirmwareManufacturer: g, EventLogLocation: lg.path, UEFIVariableReader: vars, Quote: q.bytes, ForceFetch: force}
 							if !gt.nilg {
 								opts.Getter = gtr
@@ -267,9 +284,9 @@ func main() {
 								switch {
 								case lg.local != nil:
 									local = lg.local
-								case lg.uri == "" && q.local != nil:
+								case !lg.uriDecides && q.local != nil:
 									local = q.local
-								case lg.uri == "" && q.bad && pv.q != nil && pv.q.local != nil:
+								case !lg.uriDecides && q.bad && pv.q != nil && pv.q.local != nil:
 									local = pv.q.local
 								}
 								if local != nil {
